@@ -16,7 +16,8 @@ PROP = "C04"
 LEVEL = "exploration"
 BUDGET = {"quick": 170, "thorough": 1500}
 
-ENTRY_NAMES = ["s.ms", "my prog.ms", "a#b.ms", "q'uote.ms", 'dq"x.ms', "é.ms", "x.y.ms", "#.ms"]
+ENTRY_NAMES = ["s.ms", "my prog.ms", "a#b.ms", "q'uote.ms", 'dq"x.ms', "é.ms", "x.y.ms", "#.ms", "report.transpiled.ms", "d.ms", "m.ms",
+               "x.mmm.ms", "UPPER.ms", "a.b.c.d.ms", "-dash.ms"]
 
 
 def gen_cases(tier, seed):
